@@ -117,6 +117,18 @@ CHECKS = {
         BASE_NOTE + 'dask scheduling, tokenisation and pickling are runtime behaviour: correspondence only.',
         'DESIGN.md section 5 C02',
     ),
+    'C03': (
+        'Rocq proof over the denotation of operator expressions (scoping irrelevance, per-operator coherence, sequencing) + differential execution of the real composition',
+        'PARTIAL. Model/C03.v is the denotation of expressions over the decorated operators (mapper / apply / train / label in '
+        'every combination, stateful or not) in terms of the three coherent segments. Proved: any nesting or explicit scoping of '
+        'the same operator sequence denotes the same chains; each operator applies its actor with exactly the state fitted on the '
+        'train features and labels produced by the preceding path (labels after its own label actor) and passes the freshly '
+        'fitted actor output downstream; evaluation is sequential and exactly the stateful apply-path actors persist a state. '
+        'Correspondence: random expressions and all parenthesisations of short ones are built with the real wrap decorators '
+        'and >>, composed, compiled and executed in train mode and (in a separate expansion) apply mode.',
+        BASE_NOTE + 'MapReduce, debug operators and user-written operators are not modelled; the graph-level composition code is tied by execution only.',
+        'DESIGN.md section 5 C03',
+    ),
 }
 NOT_YET = 'model and theorems not built yet in this round (planned, see DESIGN.md section 5/9)'
 
